@@ -105,7 +105,7 @@ fn convert(r: &Report, files: &FileLibrary, stage: &str) -> ModelReport {
         locus,
         primary_starts: r.primary().iter().filter_map(|l| loc(l.file_id, l.range.start)).collect(),
         has_primary: !r.primary().is_empty(),
-        primary_in_user_file: r.primary_file_ids().iter().any(|f| files.user_inputs().contains(f)),
+        primary_in_user_file: r.primary().iter().any(|l| files.user_inputs().contains(&l.file_id)),
         stage: stage.to_string(),
     }
 }
